@@ -229,19 +229,27 @@ def feature_digest(node):
     return json.dumps(out, default=str)
 
 
-def gen_history(rng, root, n_ops=None, p_param=0.3, sweep=False, surface_log=None, skipped_log=None):
-    """Random valid assignments executed on `root` (a scratch instance) and recorded.  sweep: every settable attribute of every
-    node once (shuffled) and a few of them a second time; otherwise n_ops random ones.  An assignment that the implementation
-    rejects is not part of the history."""
+def candidates(root):
+    """[(index path, attribute)]: the whole settable surface of an object tree"""
     cands = []
     for path, node in nodes_of(root):
         for a in settable_surface(node):
             if a == "name" and path != ():
                 continue           # Segment builds its by-name handles at construction: renaming a child is outside the property
             cands.append((path, a))
+    return cands
+
+
+def gen_history(rng, root, n_ops=None, p_param=0.3, sweep=False, surface_log=None, skipped_log=None, order=None):
+    """Random valid assignments executed on `root` (a scratch instance) and recorded.  sweep: every settable attribute of every
+    node once (shuffled) and a few of them a second time; otherwise n_ops random ones (or exactly the candidates in `order`).
+    An assignment that the implementation rejects is not part of the history."""
+    cands = candidates(root)
     if not cands:
         return []
-    if sweep:
+    if order is not None:
+        pass
+    elif sweep:
         order = rng.sample(cands, len(cands)) + [rng.choice(cands) for _ in range(min(4, len(cands)))]
         if len(order) > 40:
             order = order[:40]
@@ -277,6 +285,36 @@ def gen_history(rng, root, n_ops=None, p_param=0.3, sweep=False, surface_log=Non
         if surface_log is not None:
             surface_log.setdefault(type(node).__name__, set()).add(a)
     return ops
+
+
+def gen_post(rng, spec, max_singles=24, surface_log=None):
+    """Sequences of assignments to be applied IDENTICALLY to the original and to its clone after cloning ("equal objects stay equal
+    under equal operations"): one single-assignment sequence for every settable attribute of the object as it is at clone time
+    (each generated against that state; at most `max_singles`, sampled), one short random sequence (1-3 assignments), and one
+    longer one (a sweep through the whole surface or 4-8 random assignments).  Values are of the same kind as in the histories
+    (~30% nn.Parameter)."""
+    try:
+        cands = candidates(make(spec))
+    except Exception:
+        return []
+    if not cands:
+        return []
+    seqs = []
+    singles = cands if len(cands) <= max_singles else rng.sample(cands, max_singles)
+    for cand in singles:
+        ops = gen_history(rng, make(spec), p_param=0.3, order=[cand], surface_log=surface_log, skipped_log=SKIPPED)
+        if ops:
+            seqs.append(ops)
+    short = gen_history(rng, make(spec), n_ops=rng.randrange(1, 4), p_param=0.3, skipped_log=SKIPPED)
+    if short:
+        seqs.append(short)
+    if rng.random() < 0.5:
+        long_ = gen_history(rng, make(spec), sweep=True, p_param=0.3, skipped_log=SKIPPED)
+    else:
+        long_ = gen_history(rng, make(spec), n_ops=rng.randrange(4, 9), p_param=0.3, skipped_log=SKIPPED)
+    if long_:
+        seqs.append(long_)
+    return seqs
 
 
 # ================================================================ case specs -> objects
@@ -567,6 +605,73 @@ def same_track(u, v, loose=None):
     return False
 
 
+def listed_tags():
+    return {f.get("signature", {}).get("tag") for f in common.load_known_findings(PID) if f.get("status") == "known"}
+
+
+def split_diffs(diffs, oa, listed):
+    """(differences explained by F12 while it is listed known, by F80, all others)"""
+    f12 = [d for d in diffs if (d["cls"], d["attr"]) in F12_ATTRS and "F12-" + d["cls"] in listed]
+    f80 = [d for d in diffs if d not in f12 and is_f80(d, oa)]
+    other = [d for d in diffs if d not in f12 and d not in f80]
+    return f12, f80, other
+
+
+def apply_or_exc(obj, op):
+    try:
+        apply_op(obj, op)
+        return None
+    except Exception as ex:
+        return type(ex).__name__
+
+
+def op_text(op):
+    v = op["value"]
+    if isinstance(v, dict) and "tensor" in v:
+        v = v["tensor"]
+    return ("/".join(str(s[1]) for s in op["path"]) + "." if op["path"] else "") + f"{op['attr']} = {v!r}" + (" (nn.Parameter)" if op.get("param") else "")
+
+
+def stays_equal(spec, rng, listed, loose=None):
+    """The clone is an IDENTICAL copy: whatever sequence of assignments is applied to BOTH the original and the clone afterwards,
+    they still agree on all observable state (after every step) and on tracking (after every step of a short sequence, at the end
+    of a long one).  Returns (known tags, problems)."""
+    known, bad = [], []
+    dtype = getattr(torch, spec["dtype"].split(".")[-1])
+    is_beam = spec["kind"] == "beam"
+    for si, seq in enumerate(spec.get("post") or []):
+        x = make(spec)
+        try:
+            y = x.clone()
+        except Exception:
+            return known, bad
+        bspec = None if is_beam else gen_beam(rng, rng.choice(["particle", "parameter"]), dtype)[0]
+        for k, op in enumerate(seq):
+            ex, ey = apply_or_exc(x, op), apply_or_exc(y, op)
+            done = "; ".join(op_text(o) for o in seq[:k + 1])
+            if ex != ey:
+                bad.append(f"the same assignment(s) [{done}] applied to the original and to its clone: the last one "
+                           f"{'raises ' + ex if ex else 'succeeds'} on the original but {'raises ' + ey if ey else 'succeeds'} on the clone")
+                break
+            ox, oy = observe(x), observe(y)
+            f12, f80, other = split_diffs(obs_diffs(ox, oy), ox, listed)
+            known += ["F12-" + d["cls"] for d in f12] + (["F80-RBend"] if f80 else [])
+            if other:
+                bad.append(f"after the same assignment(s) [{done}] on the original and on its clone the two differ in observable "
+                           f"state: {clean(other[:3])}")
+                break
+            if bspec is not None and not f12 and (len(seq) <= 3 or k == len(seq) - 1):
+                tx, ty = track_or_exc(x, bspec, dtype), track_or_exc(y, bspec, dtype)
+                if not same_track(tx, ty, loose or (2e3 * torch.finfo(dtype).eps if f80 else None)):
+                    bad.append(f"after the same assignment(s) [{done}] on the original and on its clone the two track a "
+                               f"{bspec['type']} beam differently ({ty if isinstance(ty, str) else 'values differ'})")
+                    break
+        if bad:
+            bad.append(f"(sequence {si} of spec['post'])")
+            break
+    return known, bad
+
+
 def examine(spec, rng, cheetah, light=False):
     """All C15 clauses for one case.  Returns (known tags, problems, clone or None)."""
     known, bad = [], []
@@ -589,10 +694,8 @@ def examine(spec, rng, cheetah, light=False):
     diffs = obs_diffs(oa, oc)
     # a difference is attributed to a listed finding only while that finding is listed with status "known" (F12 is fixed in /repo:
     # the same difference is now an ordinary violation with this input)
-    listed = {f.get("signature", {}).get("tag") for f in common.load_known_findings(PID) if f.get("status") == "known"}
-    f12 = [d for d in diffs if (d["cls"], d["attr"]) in F12_ATTRS and "F12-" + d["cls"] in listed]
-    f80 = [d for d in diffs if d not in f12 and is_f80(d, oa)]
-    other = [d for d in diffs if d not in f12 and d not in f80]
+    listed = listed_tags()
+    f12, f80, other = split_diffs(diffs, oa, listed)
     for d in f12:
         known.append("F12-" + d["cls"])
     if f80:
@@ -620,6 +723,11 @@ def examine(spec, rng, cheetah, light=False):
                 bad.append(f"clone tracks a {bt} beam differently ({out if isinstance(out, str) else 'values differ'})")
             elif f80 and not f12 and not J.beams_bit_equal(ref, out):
                 known.append("F80-RBend")
+    # ---- equal objects stay equal under equal operations (the same assignments applied to the original and to the clone)
+    if not other and not f12 and spec.get("post"):
+        k2, b2 = stays_equal(spec, rng, listed, loose)
+        known += k2
+        bad += b2
     # ---- independence under later mutation, both directions
     hows = ("inplace", "assign") if light else ("inplace", "data", "sgd", "assign")
     bspec = None if is_beam else gen_beam(rng, rng.choice(["particle", "parameter"]), dtype)[0]
@@ -662,6 +770,24 @@ def shrink(spec, rng_seed, cheetah, light):
     ops = list(spec.get("history", []))
     if len(ops) > 45 or not fails(best):
         return best
+    post = list(best.get("post") or [])
+    if post:
+        # without any later assignment?  else: one sequence alone, then fewer assignments in it
+        if fails(dict(best, post=[])):
+            best = dict(best, post=[])
+        else:
+            for q in post:
+                if fails(dict(best, post=[q])):
+                    best = dict(best, post=[q])
+                    j = 0
+                    while j < len(q) and len(q) > 1:
+                        t = q[:j] + q[j + 1:]
+                        if fails(dict(best, post=[t])):
+                            q = t
+                            best = dict(best, post=[q])
+                        else:
+                            j += 1
+                    break
     i = 0
     while i < len(ops):
         trial = dict(best, history=ops[:i] + ops[i + 1:])
@@ -717,12 +843,14 @@ def element_cases(run, rows_l, cheetah, variants, surface_log):
                     except Exception as ex:
                         problems.append((spec, [f"could not generate a history: {type(ex).__name__}: {ex}"[:200]]))
                         continue
+                spec["post"] = gen_post(run.rng, spec, surface_log=surface_log)
                 try:
                     known, bad, c = examine(spec, run.rng, cheetah)
                 except Exception as ex:
                     known, bad, c = [], [f"examining the case raised {type(ex).__name__}: {ex}"[:300]], None
                 desc = dict(spec, nondefault=nd)
                 run.add_case(["elem", spec], len(nd) >= 2)
+                count_post(run, spec)
                 run.count("cls_" + row["cname"])
                 run.count("dtype_" + str(dtype).split(".")[-1])
                 run.count("vectorised" if vs else "scalar")
@@ -749,6 +877,70 @@ def element_cases(run, rows_l, cheetah, variants, surface_log):
                              + coq_list([f"({coq_string(p)}, {coq_string(v)})" for p, v in dfl]) + " " + obs)
                 cases.append(desc)
     return terms, cases, problems
+
+
+def count_post(run, spec):
+    post = spec.get("post") or []
+    run.count("same_ops_sequences", len(post))
+    run.count("same_ops_single_assignment_sequences", sum(1 for q in post if len(q) == 1))
+    run.count("same_ops_assignments", sum(len(q) for q in post))
+
+
+def discrete_params(cls):
+    """constructor parameters with finitely many values: booleans and Literals -> {name: [values]}"""
+    out = {}
+    for p in introspect.signature(cls):
+        if p.name in ("device", "dtype", "name"):
+            continue
+        lit = introspect._literal_choices(p)
+        if lit is not None and len(lit) > 1:
+            out[p.name] = list(lit)
+        elif isinstance(p.default, bool) or introspect._ann_str(p) == "bool":
+            out[p.name] = [False, True]
+    return out
+
+
+def flag_cases(run, rows_l, cheetah, cap, surface_log):
+    """every class with boolean / Literal constructor parameters: ALL combinations of their values (at most `cap`, sampled), the
+    other parameters non-default; freshly constructed, cloned, then the same assignments on both (a flag that gates how another
+    attribute reads back -- active/blocking, fringe_at/tracking_method -- is cloned in every combination, also the default ones)"""
+    import itertools
+    problems = []
+    for row in rows_l:
+        cls = getattr(cheetah, row["cname"])
+        try:
+            disc = discrete_params(cls)
+        except Exception:
+            continue
+        if not disc or row["cname"] == "Segment":
+            continue
+        names = sorted(disc)
+        combos = list(itertools.product(*[disc[n] for n in names]))
+        if len(combos) > cap:
+            combos = run.rng.sample(combos, cap)
+        for ci, combo in enumerate(combos):
+            dtype = (torch.float32, torch.float64)[ci % 2]
+            try:
+                kw, nd = introspect.probe_kwargs(cheetah, cls, ci % 3, dtype, None)
+                kw.update(dict(zip(names, combo)))
+                cls(**kw)
+            except Exception:
+                run.count("flag_combination_rejected_by_constructor")
+                continue
+            spec = element_spec(row["cname"], kw, dtype)
+            spec["post"] = gen_post(run.rng, spec, surface_log=surface_log)
+            try:
+                known, bad, _ = examine(spec, run.rng, cheetah, light=True)
+            except Exception as ex:
+                known, bad = [], [f"examining the case raised {type(ex).__name__}: {ex}"[:300]]
+            run.add_case(["flags", spec], True)
+            run.count("flag_combination_cases")
+            run.count("flag_combination_cls_" + row["cname"])
+            count_post(run, spec)
+            report(run, known)
+            if bad:
+                problems.append((spec, bad))
+    return problems
 
 
 def segment_cases(run, cheetah, n, surface_log):
@@ -788,11 +980,13 @@ def segment_cases(run, cheetah, n, surface_log):
             except Exception as ex:
                 problems.append((spec, [f"could not generate a history: {type(ex).__name__}: {ex}"[:200]]))
                 continue
+        spec["post"] = gen_post(run.rng, spec, max_singles=12, surface_log=surface_log)
         try:
             known, bad, _ = examine(spec, run.rng, cheetah)
         except Exception as ex:
             known, bad = [], [f"examining the case raised {type(ex).__name__}: {ex}"[:300]]
         run.add_case(["segment", spec], True)
+        count_post(run, spec)
         run.count("segment_nested" if J.has_nested(lat) else "segment_flat")
         run.count("history_ops", len(spec["history"]))
         run.count("history_ops_parameter", sum(1 for o in spec["history"] if o["param"]))
@@ -815,11 +1009,13 @@ def beam_cases(run, cheetah, n, surface_log):
                 spec = {"kind": "beam", "beam": b, "dtype": str(dtype), "history": []}
                 if i % 3:
                     spec["history"] = gen_history(run.rng, make(spec), p_param=0.3, sweep=(i % 3 == 1), surface_log=surface_log, skipped_log=SKIPPED)
+                spec["post"] = gen_post(run.rng, spec, surface_log=surface_log)
                 try:
                     known, bad, _ = examine(spec, run.rng, cheetah)
                 except Exception as ex:
                     known, bad = [], [f"examining the case raised {type(ex).__name__}: {ex}"[:300]]
                 run.add_case(["beam", spec], True)
+                count_post(run, spec)
                 run.count("beam_" + bt)
                 run.count("history_ops", len(spec["history"]))
                 run.count("history_ops_parameter", sum(1 for o in spec["history"] if o["param"]))
@@ -917,6 +1113,7 @@ def main(tier, replay=None):
 
     surface_log = {}
     terms, cases, problems = element_cases(run, rows_l, cheetah, 12 if thorough else 5, surface_log)
+    problems += flag_cases(run, rows_l, cheetah, 64 if thorough else 8, surface_log)
     seg_problems = segment_cases(run, cheetah, 600 if thorough else 80, surface_log)
     beam_problems = beam_cases(run, cheetah, 40 if thorough else 6, surface_log)
     run.cov["assigned_surface"] = {k: sorted(v) for k, v in sorted(surface_log.items())}
@@ -955,7 +1152,8 @@ def main(tier, replay=None):
                 pass
         run.violation(dict(spec, case_kind=spec.get("kind"), kind="clone", problems=bad,
                            relation="x.clone() after any history of assignments: same type, equal observable state, same dtype, no shared "
-                                    "storage, same tracking, independent under later mutation"))
+                                    "storage, same tracking, still equal (state and tracking) after the same later assignments "
+                                    "(spec['post']) on both, independent under later mutation of one of them"))
     elif not tab["ok"]:
         found = None
         for name in (tab["rejected"] or []):
@@ -1022,12 +1220,12 @@ def do_replay(run, path):
         return 1
     spec = None
     if r.get("case_kind") in ("element", "segment", "beam"):
-        spec = {k: r[k] for k in ("cls", "kwargs", "lattice", "beam", "dtype", "history", "param_kwargs") if k in r}
+        spec = {k: r[k] for k in ("cls", "kwargs", "lattice", "beam", "dtype", "history", "param_kwargs", "post") if k in r}
         spec["kind"] = r["case_kind"]
     elif "lattice" in r:
-        spec = {"kind": "segment", "lattice": r["lattice"], "dtype": r["dtype"], "history": r.get("history", [])}
+        spec = {"kind": "segment", "lattice": r["lattice"], "dtype": r["dtype"], "history": r.get("history", []), "post": r.get("post", [])}
     elif "beam" in r:
-        spec = {"kind": "beam", "beam": r["beam"], "dtype": r["dtype"], "history": r.get("history", [])}
+        spec = {"kind": "beam", "beam": r["beam"], "dtype": r["dtype"], "history": r.get("history", []), "post": r.get("post", [])}
     elif isinstance(r.get("element"), dict) and "kwargs" in r["element"]:
         spec = spec_from_old_element(r["element"])
     elif "cls" in r and "kwargs" in r:
